@@ -20,6 +20,10 @@ CHECKS['C03'] = (OTHER, 'symbolic execution of the real Panel.calc_kG0 over de-C
     'Bounded symbolic verification for all real resultants (any sign, shear), geometry, flags, sub-intervals; state-based kernel at integrand level (hence for every quadrature rule) and with 2x2/3x3 symbolic points, NLgeom 0/1, uniform vs per-point laminate table.',
     'Bounds as in evidence; reals; atoms = exact integrals/functions (C10); stubs: leggauss_quad (symbolic), read_stack.',
     'DESIGN.md section 4 C03')
+CHECKS['C08'] = (OTHER, 'symbolic execution of the real Panel.calc_fint/calc_kT over de-Cythonised calc_fint/fkL_num/fkG_num with symbolic quadrature points vs von-Karman energy gradient/Hessian oracle, plus oracle-free exact five-point-stencil identity; z3 qfnra-nlsat; exact-rational replay',
+    'Bounded symbolic verification: for all amplitudes (generic, membrane-only, bending-only), laminates incl. B, flags, geometry, per symbolic quadrature point and weight: fint = energy gradient, kT = exact Jacobian and symmetric, fint(0)=0, kT(0)=kL(0); uniform vs per-point laminate table.',
+    'Bounds (m,n), quadrature points per evidence; reals; function atoms = Bardell polynomials (C10); assemblies are covered under C12/C13.',
+    'DESIGN.md section 4 C08')
 NA = {
     'C15': 'eigenvalue monotonicity/convergence for pencils of size 48..768 is not a bounded first-order query any installed solver can decide; the algebraic ingredients (exact Hessians, exact tables, nestedness) are decided under C02-C04 and C10 (DESIGN.md section 5)',
 }
